@@ -108,7 +108,8 @@ def boot_carbon():
   if lib not in sys.path:
     sys.path.insert(0, lib)
   from carbon.conf import settings
-  settings['CONF_DIR'] = os.path.join(FIXTURES, 'conf')
+  # VP_CONF_DIR: a harness that rewrites the live config files sets up a private copy before anything boots
+  settings['CONF_DIR'] = os.environ.get('VP_CONF_DIR') or os.path.join(FIXTURES, 'conf')
   from carbon import state, events, instrumentation
   state.events = events
   state.instrumentation = instrumentation
